@@ -20,8 +20,8 @@ impl Prop for C18 {
     }
     fn phases(&self, tier: Tier) -> Vec<Phase> {
         vec![
-            Phase::new("types", tier.pick(40000, 600000)).min_cases(tier.pick(10000, 150000)).timeouts(60, tier.pick(300, 1500)),
-            Phase::new("declarations", tier.pick(20000, 300000)).min_cases(tier.pick(5000, 80000)).timeouts(60, tier.pick(300, 1500)),
+            Phase::new("types", tier.pick(40000, 3000000)).min_cases(tier.pick(10000, 600000)).timeouts(60, tier.pick(300, 1500)),
+            Phase::new("declarations", tier.pick(20000, 1500000)).min_cases(tier.pick(5000, 300000)).timeouts(60, tier.pick(300, 1500)),
         ]
     }
     fn worker(&self, ctx: &WorkerCtx) -> Box<dyn Worker> {
